@@ -26,22 +26,16 @@ func checkC21(r *core.Run, p *core.Program) {
 	info := it.TypesInfo
 
 	// ---- omit table -------------------------------------------------------------------------------------
-	if f := findFn(p, "iterator", "shouldIncludeField"); f == nil {
+	if f := omitPredicate(p); f == nil {
 		r.Undecided("C21.omit-table", "iterator.shouldIncludeField")
 	} else {
-		var sw *ast.SwitchStmt
-		var swIdx int
-		for i, st := range f.Decl.Body.List {
-			if s, ok := st.(*ast.SwitchStmt); ok {
-				sw, swIdx = s, i
-			}
-		}
-		if sw == nil {
+		cases, tagObj, firstIdx := omitCases(info, f.Decl.Body.List)
+		if len(cases) == 0 || tagObj == nil {
 			r.Fail("C21.omit-table", "iterator.shouldIncludeField|switch over the omit behaviour", f.Decl.Pos(), "no switch found")
 		} else {
-			// choose-default replaced before the switch
+			// choose-default replaced before the decision
 			replaced := false
-			for _, st := range f.Decl.Body.List[:swIdx] {
+			for _, st := range f.Decl.Body.List[:firstIdx] {
 				ifs, ok := st.(*ast.IfStmt)
 				if !ok {
 					continue
@@ -50,9 +44,9 @@ func checkC21(r *core.Run, p *core.Program) {
 				if !ok || be.Op != token.EQL {
 					continue
 				}
-				if o := objOf(info, be.Y); o != nil && o.Name() == "OmitFieldChooseDefault" && objOf(info, be.X) == objOf(info, sw.Tag) {
+				if o := objOf(info, be.Y); o != nil && o.Name() == "OmitFieldChooseDefault" && objOf(info, be.X) == tagObj {
 					for _, b := range ifs.Body.List {
-						if as, ok := b.(*ast.AssignStmt); ok && len(as.Lhs) == 1 && objOf(info, as.Lhs[0]) == objOf(info, sw.Tag) {
+						if as, ok := b.(*ast.AssignStmt); ok && len(as.Lhs) == 1 && objOf(info, as.Lhs[0]) == tagObj {
 							if po := objOf(info, as.Rhs[0]); po != nil && paramIndex(f.Obj, po) >= 0 {
 								replaced = true
 							}
@@ -64,10 +58,7 @@ func checkC21(r *core.Run, p *core.Program) {
 				"the `choose default` omit behaviour is not replaced by the configured default before the decision")
 			want := map[string]string{"OmitFieldAlways": "false", "OmitFieldNever": "true", "OmitFieldEmpty": "!isValueEmpty", "OmitFieldZero": "!isValueZero"}
 			seen := map[string]bool{}
-			for _, c := range switchTable(info, sw) {
-				if c.Default {
-					continue
-				}
+			for _, c := range cases {
 				got := "?"
 				if len(c.Body) == 1 {
 					if ret, ok := c.Body[0].(*ast.ReturnStmt); ok && len(ret.Results) == 1 {
@@ -87,20 +78,16 @@ func checkC21(r *core.Run, p *core.Program) {
 						}
 					}
 				}
-				for _, e := range c.Exprs {
-					o := objOf(info, e)
-					if o == nil {
-						continue
-					}
+				for _, o := range c.Consts {
 					seen[o.Name()] = true
 					w, known := want[o.Name()]
-					r.Check("C21.omit-table", "iterator.shouldIncludeField|"+o.Name(), c.Clause.Pos(), known && got == w,
+					r.Check("C21.omit-table", "iterator.shouldIncludeField|"+o.Name(), c.Pos, known && got == w,
 						fmt.Sprintf("omit behaviour %s decides `%s`, expected `%s`", o.Name(), got, w))
 				}
 			}
 			for k := range want {
 				if !seen[k] {
-					r.Fail("C21.omit-table", "iterator.shouldIncludeField|"+k, sw.Pos(), "no case for "+k)
+					r.Fail("C21.omit-table", "iterator.shouldIncludeField|"+k, f.Decl.Pos(), "no case for "+k)
 				}
 			}
 		}
@@ -162,40 +149,30 @@ func checkC21(r *core.Run, p *core.Program) {
 
 	// `omit` applies to embedded structs as well: the recursion sits inside the omit guard
 	if f := findFn(p, "iterator", "extractFields"); f != nil {
-		okGuard := false
+		okGuard := true
 		found := false
-		var visit func(n ast.Node, guarded bool)
-		visit = func(n ast.Node, guarded bool) {
-			ast.Inspect(n, func(m ast.Node) bool {
-				switch x := m.(type) {
-				case *ast.IfStmt:
-					g := guarded
-					if be, ok := stripParens(x.Cond).(*ast.BinaryExpr); ok && be.Op == token.NEQ {
-						for _, side := range []ast.Expr{be.X, be.Y} {
-							if o := objOf(info, side); o != nil && o.Name() == "OmitFieldAlways" {
-								g = true
-							}
-						}
-					}
-					visit(x.Body, g)
-					if x.Else != nil {
-						visit(x.Else, guarded)
-					}
-					return false
-				case *ast.CallExpr:
-					if c := callee(info, x); c == f.Obj {
-						found = true
-						if guarded {
-							okGuard = true
-						} else {
-							okGuard = false
-						}
-					}
+		isAlways := func(e ast.Expr) bool {
+			be, ok := stripParens(e).(*ast.BinaryExpr)
+			if !ok || be.Op != token.EQL {
+				return false
+			}
+			for _, side := range []ast.Expr{be.X, be.Y} {
+				if o := objOf(info, side); o != nil && o.Name() == "OmitFieldAlways" {
+					return true
 				}
-				return true
-			})
+			}
+			return false
 		}
-		visit(f.Decl.Body, false)
+		inspectCalls(info, f.Decl.Body, func(call *ast.CallExpr, c *types.Func) {
+			if c != f.Obj {
+				return
+			}
+			found = true
+			conds, pols := pathConds(a, info, f, call)
+			if !impliesAtomValue(info, f, conds, pols, isAlways, false) {
+				okGuard = false
+			}
+		})
 		r.Check("C21.omit-table", "iterator.extractFields|omit applies to embedded structs", f.Decl.Pos(), found && okGuard,
 			"the fields of an embedded struct are collected outside the `omit behaviour != always` test: an embedded struct tagged ce:\"omit\" is flattened into its parent anyway")
 	}
@@ -531,4 +508,134 @@ func checkIndexPath(r *core.Run, p *core.Program, rule string) {
 		}
 	}
 	r.Floor(rule, "recursive struct walkers with an index path parameter", nWalk, 2)
+}
+
+// omitPredicate finds the function that decides whether a struct field is marshaled: iterator.shouldIncludeField
+// by name, or - when it has been renamed - the only unexported function of package iterator that returns bool and
+// takes a configuration.FieldOmitBehavior.
+func omitPredicate(p *core.Program) *fn {
+	if f := findFn(p, "iterator", "shouldIncludeField"); f != nil {
+		return f
+	}
+	var found []*fn
+	for _, f := range funcsOf(p.Pkg("iterator")) {
+		sig := f.Obj.Type().(*types.Signature)
+		if sig.Recv() != nil || f.Obj.Exported() || sig.Results().Len() != 1 {
+			continue
+		}
+		if b, ok := sig.Results().At(0).Type().Underlying().(*types.Basic); !ok || b.Kind() != types.Bool {
+			continue
+		}
+		for i := 0; i < sig.Params().Len(); i++ {
+			if nt := namedOf(sig.Params().At(i).Type()); nt != nil && nt.Obj().Name() == "FieldOmitBehavior" {
+				found = append(found, f)
+				break
+			}
+		}
+	}
+	if len(found) == 1 {
+		return found[0]
+	}
+	return nil
+}
+
+// omitCase is one arm of the decision over the omit behaviour, read from a switch or from an if / else-if chain.
+type omitCase struct {
+	Consts []types.Object
+	Body   []ast.Stmt
+	Pos    token.Pos
+}
+
+// omitCases reads `switch tag { case K…: body }` or `if tag == K [|| tag == K2] { body } [else if …]` (also as a
+// sequence of ifs whose bodies return) from a statement list; tagObj is the variable compared.
+func omitCases(info *types.Info, list []ast.Stmt) (cases []omitCase, tagObj types.Object, firstIdx int) {
+	firstIdx = -1
+	eqConsts := func(e ast.Expr) ([]types.Object, types.Object) {
+		var consts []types.Object
+		var tag types.Object
+		ok := true
+		var walk func(e ast.Expr)
+		walk = func(e ast.Expr) {
+			e = stripParens(e)
+			be, isBin := e.(*ast.BinaryExpr)
+			if !isBin {
+				ok = false
+				return
+			}
+			switch be.Op {
+			case token.LOR:
+				walk(be.X)
+				walk(be.Y)
+			case token.EQL:
+				c, isC := objOf(info, be.Y).(*types.Const)
+				t := objOf(info, be.X)
+				if !isC {
+					c, isC = objOf(info, be.X).(*types.Const)
+					t = objOf(info, be.Y)
+				}
+				if !isC || t == nil || (tag != nil && tag != t) {
+					ok = false
+					return
+				}
+				tag = t
+				consts = append(consts, c)
+			default:
+				ok = false
+			}
+		}
+		walk(e)
+		if !ok {
+			return nil, nil
+		}
+		return consts, tag
+	}
+	for i, st := range list {
+		switch x := st.(type) {
+		case *ast.SwitchStmt:
+			if x.Tag == nil {
+				continue
+			}
+			var cs []omitCase
+			for _, c := range x.Body.List {
+				cc := c.(*ast.CaseClause)
+				oc := omitCase{Body: cc.Body, Pos: cc.Pos()}
+				for _, e := range cc.List {
+					if o := objOf(info, e); o != nil {
+						oc.Consts = append(oc.Consts, o)
+					}
+				}
+				if cc.List != nil {
+					cs = append(cs, oc)
+				}
+			}
+			return cs, objOf(info, x.Tag), i
+		case *ast.IfStmt:
+			cur := x
+			for cur != nil {
+				consts, tag := eqConsts(cur.Cond)
+				if consts == nil || len(consts) == 0 {
+					break
+				}
+				isOmitConst := false
+				for _, c := range consts {
+					if strings.HasPrefix(c.Name(), "OmitField") && c.Name() != "OmitFieldChooseDefault" {
+						isOmitConst = true
+					}
+				}
+				if !isOmitConst {
+					break
+				}
+				if tagObj == nil {
+					tagObj, firstIdx = tag, i
+				}
+				if tag != tagObj {
+					break
+				}
+				cases = append(cases, omitCase{Consts: consts, Body: cur.Body.List, Pos: cur.Pos()})
+				next, _ := cur.Else.(*ast.IfStmt)
+				cur = next
+			}
+		}
+	}
+	return cases, tagObj, firstIdx
 }
